@@ -18,6 +18,9 @@ HEADER = ("From DV Require Import Model.PyPrims Model.Tree Model.C07Model.\n"
 FRESH = 10 ** 6
 PATTERNS = ["unit", "equal", "zeros", "int", "dyadic", "none", "mixed"]
 UNIFORM = ["unit", "equal", "zeros", "int", "dyadic", "none"]
+# wave 8: zero-length TERMINAL edges (identical sequences: zero-length cherries / polytomies, so that the most
+# distant pair is tied and its deeper end sits on a zero-length edge) over positive or zero internal edges
+ZLEAF = ["zleaf", "zleafint"]
 
 
 # ---------------------------------------------------------------------------------------
@@ -45,6 +48,14 @@ def apply_pattern(rng, t, pattern, root_len=None):
 
     for nd in trees.preorder(t):
         nd["len"] = one()
+    if pattern in ZLEAF:
+        for nd in trees.preorder(t):
+            if not nd["kids"]:
+                nd["len"] = 0 if rng.random() < 0.75 else rng.choice([512, 1024, 2048])
+            elif pattern == "zleafint":
+                nd["len"] = 1024 * rng.choice([0, 1, 1, 2, 2, 3])
+            else:
+                nd["len"] = rng.choice([0, 256, 512, 1024, 1024, 1536, 2048, 3072])
     t["len"] = root_len
     return t
 
@@ -120,7 +131,60 @@ def gen_op(rng, t, kind=None, node=None):
     raise ValueError(kind)
 
 
+REFUSED_KINDS = ["EdgeSeed", "EdgeSeed", "OutgroupSeed", "ReseedForeignRoot", "RerootForeignRoot", "NoneArg",
+                 "ReseedSelf", "RerootSelf"]
+
+
+def gen_refused(rng, t):
+    """a call the method refuses (documented / obvious argument error) or documents as changing nothing:
+    reroot_at_edge on the SEED edge (no tail node: AttributeError), to_outgroup_position(seed) (AssertionError),
+    reseed_at / reroot_at_node with the seed node of ANOTHER tree (returns at once), a None argument
+    (AttributeError), reseed_at(seed) / reroot_at_node(seed) with every clean-up switched off"""
+    b = lambda: rng.random() < 0.5
+    k = rng.choice(REFUSED_KINDS)
+    if k == "EdgeSeed":
+        l1, l2 = rng.choice([(None, None), (512, 512), (0, 1024), (1024, 0), (256, 3072), (2048, None)])
+        return ["EdgeSeed", l1, l2, b(), b()]
+    if k == "OutgroupSeed":
+        return ["OutgroupSeed", b(), b()]
+    if k == "ReseedForeignRoot":
+        return ["ReseedForeignRoot", b(), b(), b()]
+    if k == "RerootForeignRoot":
+        return ["RerootForeignRoot", b(), b()]
+    if k == "NoneArg":
+        return ["NoneArg", rng.choice(["reseed_at", "reroot_at_node", "reroot_at_edge", "to_outgroup_position"])]
+    return [k]
+
+
+def gen_zleaf_midpoint(rng, maxleaves=12):
+    """midpoint rooting of a tree with zero-length terminal edges: ties in the maximal pair, and the deeper of
+    the two most distant leaves on a zero-length edge"""
+    n = min(rng.choice([3, 4, 4, 5, 5, 6, 7, 8, 10, maxleaves]), maxleaves)
+    pattern = rng.choice(ZLEAF)
+    t = random_tree(rng, n, pattern, rng.choice([0.0, 0.0, 0.0, 0.15]))
+    return {"tree": t, "rooted": rng.choice([None, True, False]), "pattern": pattern,
+            "op": gen_op(rng, t, "Midpoint"), "fresh": FRESH}
+
+
+def gen_refused_case(rng, maxleaves=12):
+    """history: a refused call, then (the tree must be exactly as it was) a further re-rooting"""
+    n = min(rng.choice([2, 3, 3, 4, 4, 5, 6, 7, 8, 10, maxleaves]), maxleaves)
+    pattern = rng.choice(PATTERNS + ZLEAF + ["unit", "int", "dyadic"])
+    t = random_tree(rng, n, pattern, rng.choice([0.0, 0.0, 0.0, 0.15]))
+    if t["len"] is None and pattern != "none" and rng.random() < 0.5:
+        t["len"] = rng.choice([512, 1024, 2048])      # a seed edge length that the refused call must not overwrite
+    kind = rng.choice(["Reseed", "Reseed", "RerootNode", "RerootEdge", "RerootEdge", "Midpoint", "ToOutgroup",
+                       "Reorient", "Ladderize"])
+    return {"tree": t, "rooted": rng.choice([None, True, False]), "pattern": pattern,
+            "op": gen_op(rng, t, kind), "fresh": FRESH, "refused": gen_refused(rng, t)}
+
+
 def gen_case(rng, maxleaves=12):
+    k = rng.random()
+    if k < 0.08:
+        return gen_zleaf_midpoint(rng, maxleaves)
+    if k < 0.18:
+        return gen_refused_case(rng, maxleaves)
     n = rng.choice([2, 3, 3, 4, 4, 5, 5, 6, 6, 7, 8, 9, 10, 12, maxleaves])
     n = min(n, maxleaves)
     pattern = rng.choice(PATTERNS + ["unit", "equal", "int", "dyadic"])
@@ -192,6 +256,17 @@ def fixed_cases():
                     "op": ["CollapseBasal", True], "fresh": FRESH})
         out.append({"tree": nw([[], [[], []]], [None, u, u, u, u]), "rooted": rooted, "pattern": "unit",
                     "op": ["ToOutgroup", 1, False, True], "fresh": FRESH})
+        # wave 8: zero-length cherry on the deeper end of the longest path, (((A:0,B:0):2,E:1):1,(C:2,D:2):x)
+        zc = [[[[], []], []], [[], []]]
+        for x in (u // 2, u):
+            out.append({"tree": nw(zc, [None, u, 2 * u, 0, 0, u, x, 2 * u, 2 * u]), "rooted": rooted,
+                        "pattern": "zleaf", "op": ["Midpoint", rooted is True, rooted is not False, True],
+                        "fresh": FRESH})
+        # a refused call (seed edge / seed as outgroup), then a proper re-rooting of the same tree
+        for ref in (["EdgeSeed", u // 2, u // 2, False, True], ["OutgroupSeed", False, True]):
+            out.append({"tree": nw(bal, [None, u, u, 2 * u, 3 * u, u, u], root_len=u if rooted else None),
+                        "rooted": rooted, "pattern": "int", "op": ["RerootEdge", 4, u, 2 * u, False, True],
+                        "fresh": FRESH, "refused": ref})
     return out
 
 
@@ -230,6 +305,61 @@ def label_ranks(ntaxa):
     return {k: 1 + labels.index("t%d" % k) for k in range(ntaxa)}
 
 
+def run_refused(case, tree, by_id, taxon_objs, ns, taxon_index):
+    """the refused call of a history case: what it raised / returned and a full re-observation of the tree
+    (pointer dump from the seed incl. the seed's own parent pointer and edge, every edge length, identity of
+    every node's edge object, rooting flag)"""
+    rop = case["refused"]
+    k = rop[0]
+    f = lambda x: None if x is None else x * trees.UNIT
+    edges_before = {i: id(nd._edge) for i, nd in by_id.items()}
+    keep = []
+    r = {"exc": None, "msg": None, "returned": None}
+    try:
+        with core.alarm(20):
+            if k == "EdgeSeed":
+                ret = tree.reroot_at_edge(tree.seed_node.edge, length1=f(rop[1]), length2=f(rop[2]),
+                                          update_bipartitions=rop[3], suppress_unifurcations=rop[4])
+            elif k == "OutgroupSeed":
+                ret = tree.to_outgroup_position(tree.seed_node, update_bipartitions=rop[1],
+                                                suppress_unifurcations=rop[2])
+            elif k in ("ReseedForeignRoot", "RerootForeignRoot"):
+                other, _ = trees.build_dendropy(case["tree"], taxon_objs, is_rooted=case["rooted"], namespace=ns)
+                keep.append(other)
+                if k == "ReseedForeignRoot":
+                    ret = tree.reseed_at(other.seed_node, update_bipartitions=rop[1],
+                                         collapse_unrooted_basal_bifurcation=rop[2], suppress_unifurcations=rop[3])
+                else:
+                    ret = tree.reroot_at_node(other.seed_node, update_bipartitions=False,
+                                              suppress_unifurcations=rop[1],
+                                              collapse_unrooted_basal_bifurcation=rop[2])
+            elif k == "NoneArg":
+                ret = getattr(tree, rop[1])(None)
+            elif k == "ReseedSelf":
+                ret = tree.reseed_at(tree.seed_node, update_bipartitions=False,
+                                     collapse_unrooted_basal_bifurcation=False, suppress_unifurcations=False)
+            elif k == "RerootSelf":
+                ret = tree.reroot_at_node(tree.seed_node, update_bipartitions=False, suppress_unifurcations=False,
+                                          collapse_unrooted_basal_bifurcation=False)
+            else:
+                raise RuntimeError("unknown refused op %r" % (rop,))
+            r["returned"] = "seed" if ret is tree.seed_node else ("None" if ret is None else "other")
+    except Exception as e:
+        r["exc"] = core.exc_enum(e)
+        r["msg"] = "%s: %s" % (type(e).__name__, str(e)[:100])
+    dump, problems = trees.dump_dendropy(tree, taxon_index, trees.IdAlloc(case["fresh"] + 500000))
+    seed = tree.seed_node
+    if seed._parent_node is not None and "seed node has a parent" not in problems:
+        problems.append("seed node has a parent")
+    if seed._edge is not None and seed._edge.tail_node is not None:
+        problems.append("seed edge has a tail node")
+    for i, nd in by_id.items():
+        if id(nd._edge) != edges_before[i]:
+            problems.append("node %d has another edge object" % i)
+    r["dump"], r["problems"], r["rooted"] = dump, problems, tree.is_rooted
+    return r
+
+
 def observe(case):
     import dendropy
     from dendropy.calculate.phylogeneticdistance import PhylogeneticDistanceMatrix as PDM
@@ -251,6 +381,8 @@ def observe(case):
         spy.append(r)
         return r
 
+    if case.get("refused"):
+        obs["refused"] = run_refused(case, tree, by_id, taxon_objs, ns, taxon_index)
     try:
         with core.alarm(20):
             if kind == "Reseed":
@@ -408,6 +540,20 @@ def lengths_class(t):
     return "mixed"
 
 
+def same_tree(a, b):
+    """None when the two dumps agree node by node (identity, taxon, length, child order), else where they differ"""
+    for f in ("id", "taxon", "len"):
+        if a[f] != b[f]:
+            return "node %s: %s %r -> %r" % (b["id"], f, b[f], a[f])
+    if len(a["kids"]) != len(b["kids"]):
+        return "node %s: %d -> %d children" % (b["id"], len(b["kids"]), len(a["kids"]))
+    for x, y in zip(a["kids"], b["kids"]):
+        d = same_tree(x, y)
+        if d:
+            return d
+    return None
+
+
 SOFT = ("Reseed", "ToOutgroup", "Ladderize", "Reorder", "Rotate", "Reorient", "Suppress")
 HARD = ("RerootNode", "RerootEdge", "Midpoint")
 
@@ -427,9 +573,38 @@ def oracle(case, obs):
     res = obs["res"]
     cls = lengths_class(t)
     nodes = {n["id"]: n for n in trees.preorder(t)}
+    ref = obs.get("refused")
+    if ref is not None:
+        # a refused operation changes nothing: pointer structure from the seed (incl. the seed's own parent
+        # pointer and edge), every edge length, every node's edge object, the rooting flag - except what the
+        # method documents: the hard re-rooting sets is_rooted
+        rk = case["refused"][0]
+        want_exc = {"EdgeSeed": "AttrErr", "OutgroupSeed": "AssertErr", "NoneArg": "AttrErr"}.get(rk)
+        if ref["exc"] != want_exc:
+            return ("refused call %s: raised %s (%s), expected %s" % (case["refused"], ref["exc"], ref["msg"], want_exc),
+                    "refused-op-other-error:" + rk)
+        if ref["problems"]:
+            return ("after the refused call %s [%s] the node structure is ill-formed: %s"
+                    % (case["refused"], ref["msg"], ref["problems"][:3]), "refused-op-changed-pointers:" + rk)
+        if same_tree(ref["dump"], t) is not None:
+            return ("the refused call %s [%s] changed the tree: %s" % (case["refused"], ref["msg"], same_tree(ref["dump"], t)),
+                    "refused-op-changed-tree:" + rk)
+        want_flag = True if rk in ("RerootForeignRoot", "RerootSelf") else case["rooted"]
+        if ref["rooted"] != want_flag:
+            return ("the refused call %s [%s] changed is_rooted %r -> %r" % (case["refused"], ref["msg"], case["rooted"], ref["rooted"]),
+                    "refused-op-changed-flag:" + rk)
+        if want_flag != case["rooted"]:
+            case = dict(case, rooted=want_flag)      # the rest of the history starts from the documented flag
     if res[0] == "Err":
         # exceptions are part of the behaviour compared with the model; the property itself speaks
-        # about results.  Documented/obvious argument errors only:
+        # about results.  Documented/obvious argument errors only.
+        # Midpoint rooting of a tree with >= 2 leaves, every leaf with a taxon and every edge with a length is
+        # inside the property ("after midpoint rooting the root lies half-way along a longest path ... also
+        # when zero lengths create ties"): it has to root the tree, not to fail
+        if (kind == "Midpoint" and cls == "all" and len(t["kids"]) >= 2
+                and all(n["taxon"] is not None for n in trees.leaves(t))):
+            return ("reroot_at_midpoint raised %s instead of rooting the tree (all edge lengths defined, >= 2 leaves)"
+                    % obs.get("msg"), "midpoint-raised")
         return None
     out, rooted_after = res[1], res[2]
     if obs.get("problems"):
@@ -596,7 +771,10 @@ def to_coq(case, obs):
         exp = "(Err %s)" % res[1]
     else:
         exp = "(Ok (%s, %s))" % (trees.c_tree(res[1]), c_ob(res[2]))
-    return "(mkCase %s %s %s %s)" % (trees.c_tree(case["tree"]), c_ob(case["rooted"]), c_op(case, obs), exp)
+    # history cases: the refused call leaves the tree as it was (oracle clause), so the model is run on the input
+    # tree; a refused HARD re-rooting has set the flag
+    r0 = True if (case.get("refused") or [None])[0] in ("RerootForeignRoot", "RerootSelf") else case["rooted"]
+    return "(mkCase %s %s %s %s)" % (trees.c_tree(case["tree"]), c_ob(r0), c_op(case, obs), exp)
 
 
 def nontrivial(case, obs):
@@ -636,8 +814,10 @@ def run(tier, seed, replay=None):
         "translator tie for reroot_at_midpoint: coq/Gen/Midpoint.v is compiled from the method's AST by "
         "py/dv/gen_midpoint.py and proved equal to the model (Props/C07Gen.v); trusted there: the Python semantics "
         "stated in coq/Model/C07GenMidPrims.v (node references as parent-pointer paths, identity = id, the "
-        "distance-matrix queries / distance_from_root / reseed_at / update_bipartitions as interface operations "
-        "given by C07Model's functions); the pointer block of the method (edge split) is one operation there, but "
+        "distance-matrix queries / reseed_at / update_bipartitions as interface operations "
+        "given by C07Model's functions; Node.distance_from_root is compiled too since wave 8 - "
+        "gen_distance_from_root, proved equal to C07Model.dfr for every mixture of None / zero / non-zero "
+        "lengths, Props/C07Gen.v section 3); the pointer block of the method (edge split) is one operation there, but "
         "its statements are compiled one by one over the heap (Gen/Mutators.v Tree_reroot_at_midpoint__edge_split) "
         "and proved equal to that operation (Props/C07Gen.v section 2); trusted: both translators cut out the same "
         "statements (one locator, dv.gen_mutators.pointer_block)",
@@ -670,6 +850,8 @@ def run(tier, seed, replay=None):
         ctx.count("op:" + c["op"][0])
         ctx.count("lengths:" + c["pattern"])
         ctx.count("rooted:%s" % c["rooted"])
+        if c.get("refused"):
+            ctx.count("refused-then:" + c["refused"][0])
         ctx.count("leaves:%d" % min(len(trees.leaves(c["tree"])), 13))
     core.corr_stage(ctx, cases, observe, to_coq, HEADER, "case_ok", oracle=oracle, show_fn="case_run",
                     nontrivial=nontrivial, search=search, shard=250,
@@ -680,5 +862,14 @@ def run(tier, seed, replay=None):
                       rule="fixed cases from the property text; every node/edge/outgroup of every rose-tree shape with "
                            "<= 4 (quick) / <= 6 (thorough) leaves with drawn flags, rooting state and length pattern "
                            "(unit, equal, zeros, integers, dyadics, all-None, mixed); random trees up to 40 leaves "
-                           "(some with unifurcations) x all operations; a case is non-trivial when the call succeeds "
+                           "(some with unifurcations) x all operations; wave 8: midpoint rooting of trees with "
+                           "zero-length TERMINAL edges over zero / positive internal edges (ties in the maximal pair, "
+                           "its deeper end on a zero-length edge; a midpoint rooting that raises on a tree with all "
+                           "lengths defined is a violation), and histories `refused call, then a re-rooting`: "
+                           "reroot_at_edge on the seed edge, to_outgroup_position(seed), reseed_at / reroot_at_node with "
+                           "the seed of another tree, a None argument, reseed_at / reroot_at_node at the seed with all "
+                           "clean-up off - after the refused call the pointer dump (incl. the seed's parent pointer and "
+                           "edge), every length, every node's edge object and the flag are as before (a hard "
+                           "re-rooting sets the flag), and the following operation is judged against the ORIGINAL "
+                           "tree; a case is non-trivial when the call succeeds "
                            "and the result tree differs from the input; distinct by full case content")
